@@ -500,7 +500,11 @@ def walkBodies (c : Ctx) (breakLabel : Option Nat) :
     List (Option Expr × List Stmt) → W (List Nat)
   | [] => return []
   | (_, body) :: rest => do
+    -- each clause walks with its own clone of the name map (repair 0aff63c): a clause can be entered by a
+    -- jump from the head, so declarations of a clause are visible neither after the switch nor in later clauses
+    let outer ← getLocals
     let ok ← walkStmts c breakLabel body
+    setLocals outer
     if ok then do
       let l ← markBranchPoint
       let others ← walkBodies c breakLabel rest
